@@ -1,3 +1,4 @@
+<<<<<<< HEAD
 """9.7 / C09: prepare_for_resubmission sets submitted_jobs = num_jobs - len(jobs_to_resubmit) even when unselected
 never-submitted jobs exist (resubmit-jobs --no-missing after a canceled submission).  The unselected job stays NOT_SUBMITTED
 but is counted as submitted; the next round submits it anyway and submitted_jobs exceeds num_jobs (show-status prints
@@ -40,3 +41,157 @@ try:
     sys.exit(1 if bad else 0)
 finally:
     shutil.rmtree(d, ignore_errors=True)
+=======
+"""C13 / C09 (DESIGN 9.7): resubmit-jobs --no-missing on a completed submission that still holds a never-submitted job.
+
+ (a) Three independent jobs; j0 failed, j1 succeeded, j2 was never submitted (the submission was canceled and then
+     force-completed: all its unfinished jobs are "missing").  `resubmit-jobs --no-missing` selects only j0, yet
+       * Cluster.prepare_for_resubmission writes submitted_jobs = num_jobs - |rerun set| = 2 although only j1 is
+         submitted/done (status invariant `submitted_jobs = #(SUBMITTED or DONE)` false), and
+       * the submit round that follows batches the unselected j2 together with j0 (config_batch_1 = [j0, j2]) and
+         leaves submitted_jobs = 4 > num_jobs = 3.
+     Lean: Jade.C13.noMissing_counters_witness (the negation, by `decide`), prepare_statusInv_iff (the exact
+     characterisation: the invariants hold iff no never-submitted job is left outside the rerun set).
+ (b) Observation, not a violation of C13's conjunction (nothing is erased): a --submission-groups-file that cannot be
+     loaded raises after the promotion and before the try/finally; the submitter field stays set and every later
+     resubmit-jobs dies on `assert promoted`.  Lean: groups_file_failure_keeps_role, held_role_blocks_resubmission.
+
+Run: PYTHONPATH=/repo JADE_REGISTRY=/tmp/x.json /venv/bin/python findings/f97_resubmit_no_missing.py [a|b|ab]
+Exit status 1 = the defect of part (a) is present (part (b) only prints)."""
+import json
+import logging
+import os
+import shutil
+import sys
+import tempfile
+from pathlib import Path
+
+logging.disable(logging.CRITICAL)
+import jade.utils.run_command as rc  # noqa: E402
+from jade.extensions.generic_command import GenericCommandConfiguration, GenericCommandParameters  # noqa: E402
+from jade.models import HpcConfig, SubmitterParams, JobState  # noqa: E402
+from jade.jobs.cluster import Cluster  # noqa: E402
+from jade.jobs.job_submitter import JobSubmitter  # noqa: E402
+from jade.jobs.results_aggregator import ResultsAggregator  # noqa: E402
+from jade.result import Result  # noqa: E402
+from jade.cli.resubmit_jobs import resubmit_jobs  # noqa: E402
+from jade.enums import JobCompletionStatus  # noqa: E402
+
+
+class FakePopen:
+    def __init__(self, cmd, **kw):
+        self.cmd = cmd
+        self.returncode = None
+
+    def communicate(self):
+        self.returncode = 0
+        if self.cmd[0] == "sbatch":
+            return b"Submitted batch job 77\n", b""
+        return b"", b""
+
+
+class FakeSub:
+    PIPE = -1
+    Popen = FakePopen
+
+    @staticmethod
+    def call(cmd, **kw):
+        return 0
+
+
+rc.subprocess = FakeSub
+os.environ.setdefault("USER", "u")
+JobSubmitter._save_repository_info = lambda self, registry: None
+which = sys.argv[1] if len(sys.argv) > 1 else "ab"
+
+
+def make(d):
+    """j0 failed, j1 ok, j2 never submitted; canceled, then complete"""
+    params = SubmitterParams(hpc_config=HpcConfig(hpc_type="slurm", hpc={"account": "a"}), generate_reports=False,
+                             resource_monitor_type="none", per_node_batch_size=2)
+    config = GenericCommandConfiguration()
+    for name in ("j0", "j1", "j2"):
+        config.add_job(GenericCommandParameters(command="true", name=name))
+    config.assign_default_submission_group(params)
+    mgr = JobSubmitter.create(config, output=str(d))
+    cluster = Cluster.create(str(d), mgr.config)
+    agg = ResultsAggregator.create(str(d))
+    agg.append_result(Result("j0", 1, JobCompletionStatus.FINISHED, 1.5, 1700000000.0, hpc_job_id="11"))
+    agg.append_result(Result("j1", 0, JobCompletionStatus.FINISHED, 1.5, 1700000001.0, hpc_job_id="11"))
+    jobs = list(cluster.job_status.jobs)
+    cluster.update_job_status(jobs[:2], [], [], set(), ["11"], 2)      # j0, j1 submitted in batch 1
+    cluster.update_job_status([], [], [], {"j0", "j1"}, [], 2)         # both collected
+    cluster.mark_canceled()                                             # cancel-jobs: j2 is never submitted
+    mgr._results = ResultsAggregator.list_results(str(d))
+    mgr.write_results_summary("results.json", ["j2"])
+    cluster.mark_complete()                                             # forced completion (no active HPC job)
+    cluster.demote_from_submitter()
+
+
+def run(d, *args):
+    try:
+        resubmit_jobs.callback(str(d), *args)
+        return "returned"
+    except SystemExit as e:
+        return f"exit {e.code}"
+    except BaseException as e:  # noqa
+        return f"raised {type(e).__name__}"
+
+
+bad = False
+if "a" in which:
+    d = Path(tempfile.mkdtemp(prefix="f97-"))
+    try:
+        make(d)
+        seen = {}
+        orig = JobSubmitter.submit_jobs
+
+        def spy(self, cluster, force_local=False):
+            cfg = json.loads((d / "cluster_config.json").read_text())
+            js = json.loads((d / "job_status.json").read_text())
+            seen["cfg"] = cfg
+            seen["states"] = [(j["name"], j["state"]) for j in js["jobs"]]
+            return orig(self, cluster, force_local=force_local)
+        JobSubmitter.submit_jobs = spy
+        try:
+            out = run(d, True, False, False, None, False)        # --failed --no-missing --no-successful
+        finally:
+            JobSubmitter.submit_jobs = orig
+        cfg = json.loads((d / "cluster_config.json").read_text())
+        batch = [j["name"] for j in json.loads((d / "config_batch_2.json").read_text())["jobs"]] if (d / "config_batch_2.json").exists() else None
+        states = seen.get("states")
+        n_sub = sum(1 for _, s in states if s != "not_submitted")
+        print(f"(a) {out}; state written by prepare_for_resubmission: {states}, submitted_jobs={seen['cfg']['submitted_jobs']} "
+              f"(jobs submitted/done: {n_sub}), completed_jobs={seen['cfg']['completed_jobs']}")
+        print(f"    batch created by the rerun: {batch}; afterwards submitted_jobs={cfg['submitted_jobs']} num_jobs={cfg['num_jobs']}")
+        if seen["cfg"]["submitted_jobs"] != n_sub:
+            print("    DEFECT: submitted_jobs does not count the SUBMITTED/DONE jobs")
+            bad = True
+        if batch and "j2" in batch:
+            print("    DEFECT: the unselected, never-submitted job j2 is run by the rerun")
+            bad = True
+        if cfg["submitted_jobs"] > cfg["num_jobs"]:
+            print("    DEFECT: submitted_jobs > num_jobs")
+            bad = True
+    finally:
+        shutil.rmtree(d, ignore_errors=True)
+
+if "b" in which:
+    d = Path(tempfile.mkdtemp(prefix="f97b-"))
+    try:
+        make(d)
+        g = d.parent / (d.name + "-groups.json")
+        g.write_text("{not json")
+        rows_before = (d / "processed_results.csv").read_bytes()
+        out1 = run(d, True, True, False, str(g), False)
+        sub1 = json.loads((d / "cluster_config.json").read_text())["submitter"]
+        out2 = run(d, True, True, False, None, False)
+        sub2 = json.loads((d / "cluster_config.json").read_text())["submitter"]
+        same = (d / "processed_results.csv").read_bytes() == rows_before
+        print(f"(b) malformed groups file: {out1}, submitter afterwards {sub1!r}, results untouched: {same}; "
+              f"plain resubmit-jobs afterwards: {out2}, submitter {sub2!r}")
+        g.unlink()
+    finally:
+        shutil.rmtree(d, ignore_errors=True)
+sys.exit(1 if bad else 0)
+>>>>>>> agent-c13
